@@ -234,7 +234,8 @@ def run_embedded(prog):
             if u is not None and not isinstance(u, (int, float)):
                 res['value'] = r.norm(u.value) if u.triggered else None
     try:
-        usim.run(main())
+        # (an environment whose clock starts below zero lives in a simulation that starts there as well)
+        usim.run(main(), start=min(0, prog.get('t0', 0)))
         res['outcome'] = 'ok'
         if isinstance(prog.get('until'), list) and not r.events[prog['until'][1]].triggered:
             res['outcome'], res['exc'] = 'runtimeerror', 'until event never triggered (env.until never returned)'
